@@ -263,6 +263,7 @@ func directed(tier string) []gcase {
 		})
 		add("alias-self-big", g)
 	}
+	out = append(out, cycleFamily()...)
 	// host objects: as dict keys, nested, 0 args, a name of 256+ bytes
 	{
 		g := &graph{heap: []obj{{k: 'T'}, {k: 'H', m: "", n: "", xs: []val{vr(0)}}}, root: vr(1)}
@@ -271,6 +272,69 @@ func directed(tier string) []gcase {
 			{k: 'T', xs: []val{vr(1)}}, {k: 'H', m: "outer", n: "O", xs: []val{vr(2)}},
 			{k: 'D', xs: []val{vr(3), vr(1), vr(1), vr(3)}}}, root: vr(4)}
 		add("host", g)
+	}
+	return out
+}
+
+// Every memoised container kind reaching ITSELF through every chain of up to two further nodes (depth 1..3), on the value
+// side (list element, dict value, tuple element, host args) and on the key side (dict key, set element: through tuples
+// and host objects, the only hashable carriers). Chains that Starlark itself rejects (an unhashable key) are counted as
+// unbuildable and skipped. Each graph is rooted at the container and at a tuple holding it twice.
+func cycleFamily() []gcase {
+	kinds := []string{"L", "Dv", "Dk", "S", "T", "H"}
+	chains := [][]string{nil}
+	for _, a := range kinds {
+		chains = append(chains, []string{a})
+		for _, b := range kinds {
+			chains = append(chains, []string{a, b})
+		}
+	}
+	var out []gcase
+	for _, k1 := range []string{"L", "Dv", "Dk", "S"} {
+		for _, ch := range chains {
+			path := append([]string{k1}, ch...)
+			n := len(path)
+			g := &graph{}
+			addr := make([]int, n)
+			for i, k := range path {
+				addr[i] = len(g.heap)
+				g.heap = append(g.heap, obj{})
+				if k == "H" {
+					g.heap = append(g.heap, obj{})
+				}
+			}
+			ref := func(i int) val {
+				i %= n
+				if path[i] == "H" {
+					return vr(addr[i] + 1)
+				}
+				return vr(addr[i])
+			}
+			for i, k := range path {
+				child := ref(i + 1)
+				switch k {
+				case "L":
+					g.heap[addr[i]] = obj{k: 'L', xs: []val{vi(int64(i)), child}}
+				case "Dv":
+					g.heap[addr[i]] = obj{k: 'D', xs: []val{vs("k"), child, vi(1), vi(2)}}
+				case "Dk":
+					g.heap[addr[i]] = obj{k: 'D', xs: []val{child, vi(int64(i)), vs("z"), {k: 'N'}}}
+				case "S":
+					g.heap[addr[i]] = obj{k: 'S', xs: []val{vi(7), child}}
+				case "T":
+					g.heap[addr[i]] = obj{k: 'T', xs: []val{child, vs("t")}}
+				case "H":
+					g.heap[addr[i]] = obj{k: 'T', xs: []val{child}}
+					g.heap[addr[i]+1] = obj{k: 'H', m: "cyc", n: "N", xs: []val{vr(addr[i])}}
+				}
+			}
+			class := "cycle-" + strings.Join(path, ">")
+			g.root = ref(0)
+			out = append(out, gcase{g, class})
+			g2 := &graph{heap: append(append([]obj{}, g.heap...), obj{k: 'T', xs: []val{ref(0), vs("x"), ref(0)}})}
+			g2.root = vr(len(g2.heap) - 1)
+			out = append(out, gcase{g2, class + "/twice"})
+		}
 	}
 	return out
 }
